@@ -234,25 +234,6 @@ def ref_w(q, l):
         return w, w / n2**1.5
 
 
-def ref_psi(pos, H, ppp, nl, l, weights=None):
-    """psi_l(i) = mean_j u_ij^l  or  sum_j A_ij u_ij^l / sum_j |A_ij|,  u = (x + iy)/r (de Moivre, no atan2)"""
-    I, J, vec, cn = flat_bonds(pos, H, ppp, nl)
-    n = len(nl)
-    u = (vec[:, 0] + 1j * vec[:, 1]) / np.hypot(vec[:, 0], vec[:, 1])
-    ul = np.ones(len(u), dtype=np.complex128)
-    for _ in range(l):
-        ul = ul * u
-    if weights is None:
-        wf = np.ones(len(u))
-        den = cn.astype(float)
-    else:
-        wf = np.array([w for row in weights for w in row], float)
-        den = np.bincount(I, weights=np.abs(wf), minlength=n)
-    out = np.zeros(n, dtype=np.complex128)
-    np.add.at(out, I, wf * ul)
-    return out / den
-
-
 # ------------------------------------------------------------------------------------------ correlations
 def ref_time_corr(series, steps, dt):
     """normalised autocorrelation; equal step differences -> all origins averaged, otherwise origin 0 only"""
@@ -293,9 +274,3 @@ def ref_spatial(frames, Hs, ppp, w, conds):
         amb_any = amb_any or amb
     F = len(frames)
     return {"r": r, "gr": acc_g / F, "gA": acc_a / F, "amb": amb_any}
-
-
-def ref_window_means(series, w):
-    """means over frames n .. n+w-1 for every start n = 0 .. F-w (cumulative sums are avoided: plain slices)"""
-    x = np.asarray(series)
-    return np.array([x[n:n + w].mean(axis=0) for n in range(x.shape[0] - w + 1)])
